@@ -148,11 +148,12 @@ def run_case(ctx, seed, idx, tier):
     subset = [k for k in keys if rng.random() < 0.5] or [rng.choice(keys)]
     styles = {k: rng.choice(['inferred', 'explicit', 'variadic']) for k in subset}
     # a name has ONE variadic slot: when a predicate name occurs with several arities, at most one of them is
-    # registered variadically (a second variadic registration of the name would replace the first one)
+    # registered variadically (a second variadic registration of the name would replace the first one); the other
+    # arities of that name stay compiled or get their own fixed-arity function
     seen_variadic = set()
     for k in subset:
         if styles[k] == 'variadic':
-            if k[0] in seen_variadic or sum(1 for k2 in keys if k2[0] == k[0]) > 1:
+            if k[0] in seen_variadic:
                 styles[k] = 'explicit'
             seen_variadic.add(k[0])
     # the yielded value is irrelevant: True, False, and what a bare `yield` gives
